@@ -93,6 +93,9 @@ def _hist_ops():
                     ["rx", "junk\n"],
                     ["session"],
                     ["session"],
+                    ["bystander", "2.2.0"],
+                    ["bystander", "1.5.4"],
+                    ["bystander", ""],
                 )
             ),
         ),
@@ -200,7 +203,8 @@ def _report_text_of(line: str) -> str | None:
 
 def _run_hist(case: dict) -> Outcome:
     ops = case["ops"]
-    ops = [op if len(op) > 1 else [op[0], None] for op in ops]
+    ops = [op if len(op) > 1 and op[0] == "rx" else [op[0], None] + list(op[1:]) for op in ops]
+    ops = [op if op[0] != "bystander" else ["bystander", op[2] if len(op) > 2 else ""] for op in ops]
     reports = [_report_text(op[1]) for op in ops if _report_text(op[1]) is not None]
     release_reports = [r for r in reports if ref_protocol(r) is not None]
     rejected_after_accepted = any(
@@ -217,8 +221,16 @@ def _run_hist(case: dict) -> Outcome:
             return await (listener.next(line) if listener else env.rx(gateway, line))
 
         in_session = False
+        bystanders: list = []
         for idx, op in enumerate(ops):
             before = gateway.protocol_version
+            if op[0] == "bystander":
+                # another gateway object in the same process (say serial + MQTT in one controller) lives its own life
+                other, _ot = env.make_gateway(None)
+                bystanders.append(other)
+                if op[1]:
+                    await env.rx(other, f"0;255;3;0;2;{op[1]}\n")
+                op = ["rx", "0;255;3;0;9;bystander created\n"]
             if op[0] == "session":
                 # the application leaves the gateway context and enters it again (reconnect on the same object)
                 if listener is not None:
